@@ -31,6 +31,7 @@ func init() {
 		"subtle.ConstantTimeCompare": modelCTCompare,
 		"context.Context.Err":        modelCtxErr,
 		"context.Cause":              modelCtxCause,
+		"fmt.Sprintf":                modelSprintf,
 	}
 }
 
@@ -131,6 +132,63 @@ func modelCTCompare(ex *Exec, st *State, fn *types.Func, args []*Val, e *ast.Cal
 	sx := ex.strOf(sel(m, ex.sRef(x)), ex.sOff(x), ex.sLen(x))
 	sy := ex.strOf(sel(m, ex.sRef(y)), ex.sOff(y), ex.sLen(y))
 	return []*Val{{T: tInt, Term: ite(eq(sx, sy), intLit(1), intLit(0))}}, true
+}
+
+// ---- fmt.Sprintf: for a constant format made only of literal text and plain
+// %s verbs whose operands are strings, the result is the concatenation; in
+// every other case it is an uninterpreted function of (format, operands).
+
+func (ex *Exec) litOf(t *Term) (string, bool) {
+	if t.Op == "st.empty" {
+		return "", true
+	}
+	for k, v := range ex.strLits {
+		if v == t {
+			return k, true
+		}
+	}
+	return "", false
+}
+
+func (ex *Exec) sprintfModel(st *State, format *Term, args *Term) *Term {
+	if f, ok := ex.litOf(format); ok {
+		if !strings.Contains(f, "%") {
+			return format
+		}
+		els, known := ex.variadicElems[args.Op]
+		if args.Op == "s.nil" {
+			known = true
+		}
+		if known {
+			pieces := strings.Split(f, "%s")
+			simple := len(pieces)-1 == len(els)
+			for _, p := range pieces {
+				if strings.Contains(p, "%") {
+					simple = false
+				}
+			}
+			for _, e := range els {
+				if e == nil || e.T == nil || !isString(e.T) {
+					simple = false
+				}
+			}
+			if simple {
+				res := ex.strLit(pieces[0])
+				for i, e := range els {
+					v := ex.materialize(e, tString)
+					res = ex.strCat(res, v.Term)
+					res = ex.strCat(res, ex.strLit(pieces[i+1]))
+				}
+				return res
+			}
+		}
+	}
+	return ex.D.app("fmt.Sprintf$", SStr, format, args)
+}
+
+func modelSprintf(ex *Exec, st *State, fn *types.Func, args []*Val, e *ast.CallExpr) ([]*Val, bool) {
+	trusted(ex, "library contract: fmt.Sprintf with a constant format of literal text and plain %s verbs over string operands is their concatenation; otherwise an uninterpreted function of format and operands")
+	return []*Val{{T: tString, Term: ex.sprintfModel(st, args[0].Term, args[1].Term)}}, true
 }
 
 // ---- contexts: "done" is ghost state that may flip to true at any time
